@@ -54,7 +54,11 @@ func Tier() string {
 
 func Thorough() bool { return Tier() == "thorough" }
 
-func Shard() int   { return envInt("VERIF_SHARD", 0) }
+func Shard() int { return envInt("VERIF_SHARD", 0) }
+
+// Slot identifies the process among all processes of a run (file names, random streams). It equals Shard() except for
+// "extra" processes (another platform / build), which take over the partition share of an existing shard.
+func Slot() int    { return envInt("VERIF_SLOT", Shard()) }
 func NShards() int { return envInt("VERIF_NSHARDS", 1) }
 func Seed() int    { return envInt("VERIF_SEED", 1) }
 
@@ -262,7 +266,7 @@ func RunConfig() map[string]any {
 		"gomaxprocs": runtime.GOMAXPROCS(0),
 		"tier":       Tier(),
 		"seed":       Seed(),
-		"shard":      Shard(),
+		"shard":      Slot(),
 		"nshards":    NShards(),
 		"variant":    os.Getenv("VERIF_VARIANT"),
 	}
@@ -277,7 +281,7 @@ func (s *Session) Violation(part string, c any, err error) string {
 	}
 	rf := ReplayFile{Property: s.ID, Part: part, Error: err.Error(), Config: RunConfig(), Case: raw}
 	data, _ := json.MarshalIndent(rf, "", " ")
-	path := filepath.Join(s.out, fmt.Sprintf("replay-%s-%s-shard%d.json", s.ID, part, Shard()))
+	path := filepath.Join(s.out, fmt.Sprintf("replay-%s-%s-shard%d.json", s.ID, part, Slot()))
 	_ = os.WriteFile(path, data, 0o644)
 	s.mu.Lock()
 	s.st = status{Status: "violation", Replay: path, Message: err.Error()}
@@ -296,7 +300,7 @@ func (s *Session) trace(part string, c any) {
 	rf := ReplayFile{Property: s.ID, Part: part, Error: "the test process crashed while evaluating this case", Config: RunConfig(), Case: raw}
 	data, _ := json.Marshal(rf)
 	if s.traceFile == nil {
-		f, err := os.Create(filepath.Join(s.out, fmt.Sprintf("current-%s-shard%d.json", s.ID, Shard())))
+		f, err := os.Create(filepath.Join(s.out, fmt.Sprintf("current-%s-shard%d.json", s.ID, Slot())))
 		if err != nil {
 			return
 		}
@@ -344,13 +348,13 @@ func (s *Session) Finish() {
 	if err != nil {
 		s.Abort("cannot serialise shard record: " + err.Error())
 	} else {
-		_ = os.WriteFile(filepath.Join(s.out, fmt.Sprintf("shard-%s-%d.json", s.ID, Shard())), data, 0o644)
+		_ = os.WriteFile(filepath.Join(s.out, fmt.Sprintf("shard-%s-%d.json", s.ID, Slot())), data, 0o644)
 	}
 	s.mu.Lock()
 	st := s.st
 	s.mu.Unlock()
 	sd, _ := json.Marshal(st)
-	_ = os.WriteFile(filepath.Join(s.out, fmt.Sprintf("status-%s-%d.json", s.ID, Shard())), sd, 0o644)
+	_ = os.WriteFile(filepath.Join(s.out, fmt.Sprintf("status-%s-%d.json", s.ID, Slot())), sd, 0o644)
 	switch st.Status {
 	case "violation":
 		s.T.Errorf("VIOLATION property=%s replay=%s: %s", s.ID, st.Replay, st.Message)
@@ -451,7 +455,7 @@ func (p *Part[C]) EvalCase(s *Session, c C) {
 
 // rapidSeed derives the PRNG value of this shard and part (never 0, which rapid treats as "random").
 func rapidSeed(part string) uint64 {
-	v := uint64(1) + 1000003*uint64(Seed()) + uint64(Shard()) + (Hash64(part)%9973)*1000000007
+	v := uint64(1) + 1000003*uint64(Seed()) + uint64(Slot()) + (Hash64(part)%9973)*1000000007
 	if v == 0 {
 		v = 1
 	}
